@@ -29,6 +29,29 @@ CHECKS.update({
          'FM is exhaustive over the 4096 configurations in the thorough tier (92 in quick); CFG-REF/CFG-SAME/CFG-GATES explain the verdict structurally and give the same-code clause: a disabled partner feature behaves exactly like a partner that is not educed.', '§6 C18'),
 })
 
+CHECKS.update({
+ 'C02': ('semantic summary of the generated `eq` over the generated-code model: guard-exactness per emission site, path enumeration (exactly one check per non-ignored field), operand provenance through pattern binders, per-variant arm partition, pattern element counting',
+         'For all inputs: single fn eq; early-false checks + true; one check per non-ignored field in declaration order with self/other accesses of that same field (self first), method iff given; one arm per variant with same-variant patterns and else-false; positional patterns cannot shift. Laws follow as a lemma for lawful field comparisons.', '§6 C02'),
+ 'C03': ('semantic summary of cmp/partial_cmp: collect-then-emit discipline (BTreeMap keyed by rank, default isize::MIN+index, duplicate rejection, ascending iteration), decisive-or-continue statement normal form, operand provenance, all-unit flag analysis, Ord/PartialOrd companion and dispatcher consistency',
+         'For all inputs the comparison is lexicographic over non-ignored fields in ascending rank with self first and method iff given; PartialOrd None propagates; Ord and PartialOrd agree when both are educed.', '§6 C03'),
+ 'C05': ('semantic summary of the generated `hash`: per-field feed statements with guard-exactness and path enumeration, variant-index provenance (enumerate index of the variants loop), uses of `state`',
+         'For all inputs the hasher is fed the variant index (enums) and exactly the non-ignored fields once each in declaration order through the method iff given; nothing else.', '§6 C05'),
+ 'C06': ('path-wise semantic summary of the generated `fmt`: for every (named_field, name shown, ignored, method) case the emitted statement sequence is compared with the builder-call table; name/key provenance; builder defaults; wrapper shape',
+         'For all inputs the Debug impl issues exactly the core::fmt builder calls of the effective shape (struct / tuple / map with raw keys, effective name, keys, values, custom-method wrapper); core::fmt\'s rendering of that call sequence is trusted.', '§6 C06'),
+ 'C07': ('semantic summary of clone/clone_from: constructor shape per struct shape / variant, one CLONE(<same field>) per field in place, destination/source binder provenance via the patterns matched against self/source, fallback, bitwise-copy guard analysis',
+         'For all inputs clone rebuilds the same variant field by field (method iff given), clone_from updates each destination field from the same source field or replaces self on a different variant, and `*self` is used exactly when Copy is educed without custom methods.', '§6 C07'),
+ 'C08': ('semantic summary of default()/new(): type-expression exclusivity, verified unique-selection of the default variant / union field, one initialiser per field (own expression iff given else <FieldTy as Default>::default()), literal auto-conversion table of common::expr',
+         'For all inputs default() is the type-level expression if given, else the constructor of the struct / designated variant / designated union field with per-field expression-or-Default; new() delegates to default(); literals convert through Into exactly when the field type is not the literal\'s natural type.', '§6 C08'),
+ 'C09': ('semantic summary of deref/deref_mut: verified designation (only field or unique own-marked field), place-expression body, wildcard-count = designated index, binder = arm value, Target = designated type with references stripped',
+         'For all inputs &*x / &mut *x is a place expression of exactly the designated field of the current variant (or the referent for reference fields).', '§6 C09'),
+ 'C10': ('semantic summary of the Into impls: one impl per requested target, three-way designation search validated on the search code (only field | own target list | unique same type), body choice driven by method / type-equality of the designated field, binder patterns',
+         'For all inputs and every requested target (and no other) into() returns the designated field through its method, unchanged, or via Into, for whichever variant.', '§6 C10'),
+ 'C11': ('guard-exactness of every push into the delegated-types collection against the delegation condition of its trait; bound-trait and supertraits tables; companion satisfiability under the shared where-clause',
+         'For all inputs the automatic where-clause constrains exactly the field types the generated code delegates to the trait for, with the trait that code calls, plus the documented supertraits; companions are satisfiable under the primary\'s bounds.', '§6 C11'),
+ 'C20': ('exact-shape check of the three byte-wise union bodies (size_of::<Self>() bytes through from_raw_parts, rendered / compared / hashed once), dominance of the `unsafe` test over every emission, unsafe-first parser, acceptance switches of union builders',
+         'For all unions the Debug/PartialEq/Hash impls operate on exactly the value\'s bytes and are only generated when `unsafe` was given in first position; Clone is `*self` with Copy bounds; Default initialises the designated field.', '§6 C20'),
+})
+
 NOT_YET = {
 }
 
